@@ -345,7 +345,7 @@ def coq_muxcase(ast, trace, obs):
 # ------------------------------------------------------------------------------------------------
 # running the real code
 # ------------------------------------------------------------------------------------------------
-def run_mux(ast, trace, taps=False):
+def run_mux(ast, trace, taps=False, split_at=None):
     """Feeds the mux event trace (['c',key] / ['n',key,encval] / ['d',key] / ['e',key,code]) one event at a
     time into cast_as_mux_observable + with_store(pipeline); returns what the subscriber (and the dead-letter
     observable) received while each event was being pushed."""
@@ -370,7 +370,14 @@ def run_mux(ast, trace, taps=False):
             else:
                 cur.append(['?', type(i).__name__])
 
-        src.pipe(rs.cast_as_mux_observable(), rs.state.with_store(store, rx.pipe(*ops))).subscribe(
+        if split_at is not None and 0 < split_at < len(ops):
+            # two chained store scopes, each with its own store and topology
+            store2 = rs.state.StoreManager(store_factory=rs.state.MemoryStore)
+            piped = src.pipe(rs.cast_as_mux_observable(), rs.state.with_store(store, rx.pipe(*ops[:split_at])),
+                             rs.state.with_store(store2, rx.pipe(*ops[split_at:])))
+        else:
+            piped = src.pipe(rs.cast_as_mux_observable(), rs.state.with_store(store, rx.pipe(*ops)))
+        piped.subscribe(
             on_next=on_next, on_error=lambda e: cur.append(['fatal', exn_code(e)]),
             on_completed=lambda: cur.append(['completed']))
         steps = []
@@ -461,3 +468,17 @@ def run_plain(ast, items):
         out['final'] = list(cur)
     out['items'] = out['sub'] + [x for st in out['steps'] for x in st] + out['final']
     return out
+
+
+def run_plain_twice(ast, items):
+    """one piped plain observable (cold source), subscribed twice: [items of 1st subscription, items of 2nd]"""
+    ctx = Ctx(lambda x: None)
+    sink = io.StringIO()
+    outs = []
+    with contextlib.redirect_stdout(sink):
+        obs = rx.from_([dec(x) for x in items]).pipe(*build(ast, ctx, mux=False))
+        for _ in range(2):
+            cur = []
+            obs.subscribe(on_next=lambda i, cur=cur: cur.append(enc(i)), on_error=lambda e, cur=cur: cur.append(['x', exn_code(e)]))
+            outs.append(cur)
+    return outs
